@@ -192,6 +192,10 @@ def graph_level(sp, col, shard):
         b0 = B.build(sp, constrain=False)
         gone = [k for c in sp['constraints'] for k in c['choices']
                 if b0.dsg is None or (k in b0.sel and b0.sel[k] not in b0.dsg.graph.nodes)]
+        info0 = D.exc_info(b.error)
+        if isinstance(b.error, (ValueError, RuntimeError)) and (info0['site'] or '').endswith(':constrain_choices'):
+            col.count('skipped_constraint_rejected_explicitly')   # documented input validation of constrain_choices
+            return
         if gone:
             # the description constrains a choice that initialisation has already resolved (single option left):
             # the construction API rejects it; nothing to judge
